@@ -472,7 +472,10 @@ fn load<V: Ver>(branch: u32, db: &[Vec<u8>], pos: u32) -> Result<(u32, Entry<V>)
 where
     V::NodeData: Clone,
 {
-    Entry::<V>::from_bytes(branch, &db[pos as usize]).map(|e| (pos, e)).map_err(|e| format!("{e:?}"))
+    match guard(|| Entry::<V>::from_bytes(branch, &db[pos as usize])) {
+        Ok(r) => r.map(|e| (pos, e)).map_err(|e| format!("{e:?}")),
+        Err(p) => Err(format!("Entry::from_bytes panicked: {p}")),
+    }
 }
 
 /// Array positions of the peaks for `n` leaves, and (position, size) of the last one.
@@ -624,7 +627,10 @@ where
     V::NodeData: Clone,
 {
     let before = c.r.violation_count();
-    check_against_reference_inner(c, s, op, live_root);
+    // the comparison itself calls into the crate (to_bytes, hash, from_bytes): keep its panics
+    if let Err(p) = guard(|| check_against_reference_inner(c, s, op, live_root)) {
+        c.viol(&format!("{op}:{}:panic-while-reading-result:{}", V::NAME, panic_class(&p)), format!("{} leaves: {p}", s.leaves.len()), replay(s, json!({})));
+    }
     c.r.violation_count() == before
 }
 
@@ -733,7 +739,7 @@ where
     let lf = leaf(rng, V::N_EXT, s.base + n, s.cap_n);
     let data = V::make(s.branch, &lf);
     let prev_root = match s.live.root_node() {
-        Ok(r) => V::to_bytes(r.data()),
+        Ok(r) => guard(|| V::to_bytes(r.data())).unwrap_or_default(),
         Err(_) => vec![],
     };
     let prev_len = s.db.len();
@@ -979,7 +985,7 @@ where
     // the single-leaf array entry as the crate writes it
     if jump.is_none() {
         let mut b = vec![];
-        let _ = s.live.root_node().unwrap().node().write(&mut b);
+        let _ = guard(|| s.live.root_node().unwrap().node().write(&mut b));
         if b != s.db[0] {
             c.viol(&format!("codec:{}:leaf-entry-bytes", V::NAME), "a leaf entry does not serialise to 0x01 ‖ record".into(), replay(&s, json!({"have": hexs(&b), "want": hexs(&s.db[0])})));
         }
@@ -1041,7 +1047,15 @@ where
                 false
             }
         };
-        let ok = if append { step_append(c, rng, &mut s) } else { step_truncate(c, rng, &mut s) };
+        let stepped = guard(|| if append { step_append(c, rng, &mut s) } else { step_truncate(c, rng, &mut s) });
+        let ok = match stepped {
+            Ok(ok) => ok,
+            Err(p) => {
+                let op = if append { "append_leaf" } else { "truncate_leaf" };
+                c.viol(&format!("{op}:{}:panic:{}", V::NAME, panic_class(&p)), format!("{n} leaves: {p}"), json!({"version": V::NAME, "leaves": n, "last_ops": s.ops.iter().rev().take(20).collect::<Vec<_>>()}));
+                false
+            }
+        };
         let nn = s.leaves.len() as u64;
         c.r.case(&(V::NAME, append, n), true);
         c.r.count(if append { "appends" } else { "truncations" }, 1);
@@ -1265,6 +1279,15 @@ where
     }
 }
 
+fn guarded_codec<V: Ver>(c: &mut Ctx, what: &str, f: impl FnOnce(&mut Ctx))
+where
+    V::NodeData: Clone,
+{
+    if let Err(p) = guard(|| f(c)) {
+        c.viol(&format!("codec:{}:{what}:panic:{}", V::NAME, panic_class(&p)), format!("{p}"), json!({"version": V::NAME}));
+    }
+}
+
 fn phase_codec<V: Ver>(c: &mut Ctx, rng: &mut ChaCha20Rng, n_random: u64)
 where
     V::NodeData: Clone,
@@ -1290,8 +1313,8 @@ where
                 2 => r.sapling_tx = b,
                 k => r.ext[k - 3].tx = b,
             }
-            codec_record::<V>(c, branch, &r, "boundary");
-            codec_malformed::<V>(c, rng, branch, &r);
+            guarded_codec::<V>(c, "record", |c| codec_record::<V>(c, branch, &r, "boundary"));
+            guarded_codec::<V>(c, "malformed", |c| codec_malformed::<V>(c, rng, branch, &r));
         }
     }
     // everything maximal / minimal
@@ -1301,8 +1324,8 @@ where
     for e in &mut mx.ext {
         e.tx = u64::MAX;
     }
-    codec_record::<V>(c, u32::MAX, &mx, "all-max");
-    codec_malformed::<V>(c, rng, u32::MAX, &mx);
+    guarded_codec::<V>(c, "record", |c| codec_record::<V>(c, u32::MAX, &mx, "all-max"));
+    guarded_codec::<V>(c, "malformed", |c| codec_malformed::<V>(c, rng, u32::MAX, &mx));
     // random records (internal-node shaped: start <= end)
     for _ in 0..n_random {
         if !c.r.time_left() {
@@ -1318,9 +1341,9 @@ where
         r.end_time = rng.r#gen();
         r.end_target = rng.r#gen();
         r.end_sapling_root = rand32(rng);
-        codec_record::<V>(c, branch, &r, "random");
+        guarded_codec::<V>(c, "record", |c| codec_record::<V>(c, branch, &r, "random"));
         if rng.gen_bool(0.1) {
-            codec_malformed::<V>(c, rng, branch, &r);
+            guarded_codec::<V>(c, "malformed", |c| codec_malformed::<V>(c, rng, branch, &r));
         }
         // direct combine with a right neighbour (sums kept in range)
         let mut l = leaf(rng, V::N_EXT, 0, 2);
@@ -1329,7 +1352,7 @@ where
         l.end_height = l.start_height + rng.gen_range(0..1000);
         rr.start_height = l.end_height + 1;
         rr.end_height = rr.start_height + rng.gen_range(0..1000);
-        codec_combine::<V>(c, branch, &l, &rr);
+        guarded_codec::<V>(c, "combine", |c| codec_combine::<V>(c, branch, &l, &rr));
     }
 }
 
